@@ -587,6 +587,31 @@ func layShowCm(m map[uint16]glyph.ID) string {
 // layFontBytes assembles a font file: the base font's tables, optionally with the cmap replaced by a
 // single (3,1) format 4 subtable, optionally with a kern table; no GSUB/GPOS/GDEF.
 func layFontBytes(base string, cm map[uint16]glyph.ID, kernData []byte) []byte {
+	return layFontBytesVar(base, cm, kernData, "")
+}
+
+// layEmptyGtab is a GSUB/GPOS table (version 1.0) with empty script, feature and lookup lists.
+var layEmptyGtab = []byte{0, 1, 0, 0, 0, 10, 0, 12, 0, 14, 0, 0, 0, 0, 0, 0}
+
+// layVariants are the file-level variations of the fields sfnt.Read could consult when it decides
+// whether to synthesise the liga / kern tables; combined with "+" in the case field var=.
+//   post0 post1 postF : post.isFixedPitch = 0, 1, 0xFFFFFFFF
+//   eqw difw          : all advance widths equal / differing (hhea.numberOfHMetrics and hmtx rewritten)
+//   nohmtx            : no hmtx table
+//   panose9 panose0   : OS/2 panose bProportion = 9 (monospaced) / 0
+//   gsub gpos         : an empty GSUB / GPOS table is present in the file
+func layHasVar(variant, v string) bool {
+	for _, x := range strings.Split(variant, "+") {
+		if x == v {
+			return true
+		}
+	}
+	return false
+}
+
+// layFontBytesVar assembles a font file: the base font's tables, optionally with the cmap replaced by a
+// single (3,1) format 4 subtable, optionally with a kern table, with the variations of `variant`.
+func layFontBytesVar(base string, cm map[uint16]glyph.ID, kernData []byte, variant string) []byte {
 	layBaseOnce.Do(layLoadBase)
 	tabs := map[string][]byte{}
 	for k, v := range layBase[base] {
@@ -598,11 +623,63 @@ func layFontBytes(base string, cm map[uint16]glyph.ID, kernData []byte) []byte {
 	if kernData != nil {
 		tabs["kern"] = kernData
 	}
+	setWidths := func(w func(i int) int) {
+		n := int(tabs["maxp"][4])<<8 | int(tabs["maxp"][5])
+		hm := make([]byte, 0, 4*n)
+		for i := 0; i < n; i++ {
+			hm = append(hm, byte(w(i)>>8), byte(w(i)), 0, 0)
+		}
+		tabs["hmtx"] = hm
+		tabs["hhea"][34], tabs["hhea"][35] = byte(n>>8), byte(n)
+	}
+	for _, v := range strings.Split(variant, "+") {
+		switch v {
+		case "", "-":
+		case "post0":
+			copy(tabs["post"][12:16], []byte{0, 0, 0, 0})
+		case "post1":
+			copy(tabs["post"][12:16], []byte{0, 0, 0, 1})
+		case "postF":
+			copy(tabs["post"][12:16], []byte{255, 255, 255, 255})
+		case "eqw":
+			setWidths(func(int) int { return 1000 })
+		case "difw":
+			setWidths(func(i int) int { return 500 + (i%7)*100 })
+		case "nohmtx":
+			delete(tabs, "hmtx")
+		case "panose9":
+			tabs["OS/2"][35] = 9
+		case "panose0":
+			tabs["OS/2"][35] = 0
+		case "gsub":
+			tabs["GSUB"] = layEmptyGtab
+		case "gpos":
+			tabs["GPOS"] = layEmptyGtab
+		default:
+			panic("unknown font variant " + v)
+		}
+	}
 	var buf bytes.Buffer
 	if _, err := header.Write(&buf, layScaler[base], tabs); err != nil {
 		panic(err)
 	}
 	return buf.Bytes()
+}
+
+// layFixedByWidths is the property's notion of a fixed-pitch font: all non-zero advance widths equal.
+func layFixedByWidths(font *sfnt.Font) bool {
+	var w0 float64
+	for _, w := range font.Widths() {
+		if w == 0 {
+			continue
+		}
+		if w0 == 0 {
+			w0 = w
+		} else if w != w0 {
+			return false
+		}
+	}
+	return true
 }
 
 func layRunes(s string) []rune {
@@ -668,7 +745,7 @@ func layFacts(font *sfnt.Font, text []rune) (mapArg, wArg string, fixed bool, gi
 	if mapArg == "" {
 		mapArg = "-"
 	}
-	return mapArg, wArg, font.IsFixedPitch(), gids, font.NumGlyphs()
+	return mapArg, wArg, layFixedByWidths(font), gids, font.NumGlyphs()
 }
 
 func layGenText(c *Ctx, i int) {
@@ -722,7 +799,28 @@ func layGenText(c *Ctx, i int) {
 			cm['x'] = 5
 		}
 	}
-	font0, err := sfnt.Read(bytes.NewReader(layFontBytes(base, cm, nil)))
+	// file variant: one choice per field sfnt.Read could consult
+	var vs []string
+	if r.Chance(1, 2) {
+		vs = append(vs, Pick(r, []string{"post0", "post1", "postF"}))
+	}
+	if r.Chance(1, 3) {
+		vs = append(vs, Pick(r, []string{"eqw", "difw", "difw", "nohmtx"}))
+	}
+	if r.Chance(1, 6) {
+		vs = append(vs, Pick(r, []string{"panose9", "panose0"}))
+	}
+	if r.Chance(1, 6) {
+		vs = append(vs, "gsub")
+	}
+	if r.Chance(1, 6) {
+		vs = append(vs, "gpos")
+	}
+	variant := strings.Join(vs, "+")
+	if variant == "" {
+		variant = "-"
+	}
+	font0, err := sfnt.Read(bytes.NewReader(layFontBytesVar(base, cm, nil, variant)))
 	if err != nil {
 		panic(fmt.Sprintf("base font does not read: %v", err))
 	}
@@ -742,6 +840,9 @@ func layGenText(c *Ctx, i int) {
 		if r.Chance(1, 8) {
 			data = layMutate(r, data)
 			kernKind = "mutated"
+		} else if r.Chance(1, 8) {
+			data = layEncKern([]laySub{{flags: 1}})
+			kernKind = "one subtable, 0 pairs"
 		}
 		kernArg = hx(data)
 		if len(data) == 0 { // a zero-length table is not stored in the file: same as no kern table
@@ -770,10 +871,20 @@ func layGenText(c *Ctx, i int) {
 	for j, x := range text {
 		textInts[j] = int(x)
 	}
-	args := fmt.Sprintf("base=%s cm=%s kern=%s gsw=%s psw=%s lang=%s text=%s fixed=%s ng=%d map=%s w=%s", base, layShowCm(cm), kernArg,
+	args := fmt.Sprintf("var="+variant+" base=%s cm=%s kern=%s gsw=%s psw=%s lang=%s text=%s fixed=%s ng=%d map=%s w=%s", base, layShowCm(cm), kernArg,
 		layShowSw(gsw), layShowSw(psw), Pick(r, []string{"en", "de", "ja", "und", "tr"}), layJoin(textInts, ","), fx, ng, mapArg, wArg)
 	out := c.Case(Verdict, "layout.text", args, n >= 2)
 	c.Stat("text.base", base)
+	for _, v := range strings.Split(variant, "+") {
+		c.Stat("text.file_variant", v)
+	}
+	postFlag := "as in base font"
+	for _, v := range []string{"post0", "post1", "postF"} {
+		if layHasVar(variant, v) {
+			postFlag = v
+		}
+	}
+	c.Stat("text.post_flag x widths", postFlag+" / fixed-by-widths="+fx)
 	c.Stat("text.cmap", cmKind)
 	c.Stat("text.kern", kernKind)
 	c.Stat("text.runes", bucket(n))
@@ -806,7 +917,13 @@ func layGenText(c *Ctx, i int) {
 	if cmKind == "replaced-with-bad-gid" {
 		c.Stat("text.bad_gid_outcome", strings.SplitN(out, ":", 2)[0])
 	}
-	if (fixed || !ligaOn || !hasF) && (kernArg == "-" || !kernOn) {
+	fileGsub, fileGpos := layHasVar(variant, "gsub"), layHasVar(variant, "gpos")
+	// the property's ligature clause: proportional (by widths), no GSUB, liga enabled => standard ligatures applied
+	if !fixed && !fileGsub && ligaOn {
+		c.Case(Direct, "layout.ligd", fmt.Sprintf("map=%s text=%s got=%s", mapArg, layJoin(textInts, ","), out[3:]), hasF)
+		c.Stat("text.ligature_clause", map[bool]string{true: "checked, text contains f", false: "checked, no f in text"}[hasF])
+	}
+	if (fixed || fileGsub || !ligaOn || !hasF) && (kernArg == "-" || fileGpos || !kernOn) {
 		c.Case(Direct, "layout.trivial", fmt.Sprintf("ng=%d map=%s w=%s text=%s got=%s", ng, mapArg, wArg, layJoin(textInts, ","), out[3:]), n >= 2)
 		c.Stat("text.trivial", "checked")
 	} else {
@@ -1347,7 +1464,11 @@ func init() {
 					kd = []byte{}
 				}
 			}
-			font, err := sfnt.Read(bytes.NewReader(layFontBytes(f["base"], layParseCm(f["cm"]), kd)))
+			variant := f["var"]
+			if variant == "-" {
+				variant = ""
+			}
+			font, err := sfnt.Read(bytes.NewReader(layFontBytesVar(f["base"], layParseCm(f["cm"]), kd, variant)))
 			if err != nil {
 				return errKind(err)
 			}
@@ -1360,5 +1481,6 @@ func init() {
 		}))
 	}
 	ops["layout.trivial"] = func(f Fields) string { return "ok" }
+	ops["layout.ligd"] = func(f Fields) string { return "ok" }
 	ops["layout.pipeline"] = func(f Fields) string { return canonPanic(guard(func() string { return layRunPipeline(f) })) }
 }
